@@ -108,6 +108,10 @@ def static_type_problem(tbl, df, be):
                 ok = False
         else:
             ok = _family(et) == _family(st)
+            if not ok and _family(st) == "Bool" and _family(et) == "int":
+                # D17: SQLite has no boolean storage class; an untyped boolean expression comes back as 0/1
+                vals = set(df.get_column(c.name).drop_nulls().to_list())
+                ok = vals <= {0, 1}
         if not ok:
             probs.append(f"{c.name}: static {st} vs exported {et}")
     return probs
